@@ -9,7 +9,7 @@ LD = np.longdouble
 
 META = {
     'refill': True,      # cases presented in a reused buffer are followed by a refill of that buffer (runner)
-    'rule': ('cases = curve (all families, plateau-rich ones over-weighted, n 6..60, thorough to 400) x interior knee subset of '
+    'rule': ('cases = one long trace per shard 0-5 (18000..33000 points, period-2 ripple, one cluster spanning 9000..20000 points) + curve (all families, plateau-rich ones over-weighted, n 6..60, thorough to 400) x interior knee subset of '
              'size 2..12 x 4 linkages x t = 10^U(-2.5,0) x ranking mode in {left, linear, right, hull} + the corner variant; the '
              'monitor on filter_clusters / filter_clusters_corners recomputes the clusters with the saved linkage, the scores with '
              'the saved smooth_ranking / rank_corners_triangle (selection clause, ties within 1e-12 accepted, NaN scores rejected) '
